@@ -31,7 +31,7 @@ func init() {
 			"renumber a header to n-1,n+1,start-1,start+limit,0, replace parentHash/hash, wrong result types, every log moved out of range / to every other in-range block (with and without blockHash) / duplicated / dropped / other transactionIndex / other logIndex, " +
 			"every receipt renumbered (out of range, every other in-range block with and without blockHash) / swapped transactionIndex / dropped / duplicated, every trace renumbered (likewise) / other transactionPosition, blockHash and transactionHash of every log / receipt / trace removed, empty (0x), 31 bytes, another fork's hash, and short blockHash on the first item of a block combined with a foreign hash on each later item (the log hash operators: quick tier on the uncached URL only), / dropped / duplicated, " +
 			"body truncated at 0,1,len/2,len-1,inside a string, HTTP status {301,400,429,500,503} x {valid JSON body, text body}, transport error, object<->array, top-level null, empty batch; operators yielding a byte-identical response are enumerated once; " +
-			"the same families for Client.Latest and Client.Hash (incl. a block beyond the head); thorough: 7 more ranges and ALL PAIRS of corruptions (same or different exchanges, applied in enumeration order) for every plan on ranges (3,2),(1,3),(5,3) uncached and (3,2) cached, and for Latest and Hash(4). " +
+			"the same families for Client.Latest and Client.Hash (incl. a block beyond the head); thorough: 7 more ranges and ALL PAIRS of corruptions (same or different exchanges, applied in enumeration order; the combined bhash2, the transactionHash and the missing/empty log blockHash operators are not paired) for every plan on ranges (3,2),(1,3),(5,3) uncached and (3,2) cached, and for Latest and Hash(4). " +
 			"A case is non-trivial when every corruption of the case was reached and changed the response (baselines are trivial unless the range extends beyond the head).",
 		Assumptions: []string{
 			"an error object with code 0 is not an error object (not enumerated)",
@@ -232,7 +232,23 @@ func baseline(c *fw.Ctx, cs *Case, owner bool, expectOK bool) []Op {
 	return ops
 }
 
+// pairEligible: operators that take part in the thorough tier's pairs. The combined
+// *.bhash2 operators are pairs already; transactionHash is not judged; of the blockHash
+// variants of logs (whose cases are executed orderRuns times) "short" and "foreign" are paired.
+func pairEligible(o Op) bool {
+	switch o.Name {
+	case "log.bhash2", "rcpt.bhash2", "trace.bhash2", "log.txhash", "rcpt.txhash", "trace.txhash":
+		return false
+	case "log.bhash":
+		return o.S == "short" || o.S == "foreign"
+	}
+	return true
+}
+
 func pairable(a, b Op) bool {
+	if !pairEligible(a) || !pairEligible(b) {
+		return false
+	}
 	if a.K != b.K {
 		return true
 	}
